@@ -1004,6 +1004,36 @@ var _ = strings.TrimSpace
 // InsertOddKey picks a random map node of a raw tree, turns it into a map[any]any and adds an entry
 // with a key decoders can produce but schemas mostly do not expect (NaN, integers, bools, nil-ish).
 // Returns ok=false if the tree has no map node.
+// StringifyNumbers writes every number of the tree (values and map keys) as decimal text, the form in which a
+// YAML or command-line front end hands numbers over - and the only form that reaches a unit parser.
+func StringifyNumbers(v any) any {
+	switch x := v.(type) {
+	case int64:
+		return fmt.Sprint(x)
+	case float64:
+		return strconv.FormatFloat(x, 'f', -1, 64)
+	case []any:
+		out := make([]any, len(x))
+		for i, e := range x {
+			out[i] = StringifyNumbers(e)
+		}
+		return out
+	case map[string]any:
+		out := map[string]any{}
+		for k, e := range x {
+			out[k] = StringifyNumbers(e)
+		}
+		return out
+	case map[any]any:
+		out := map[any]any{}
+		for k, e := range x {
+			out[StringifyNumbers(k)] = StringifyNumbers(e)
+		}
+		return out
+	}
+	return v
+}
+
 // AddCollidingKey gives one map of the tree a second key that denotes the same key as an existing one
 // (the integer 7 beside "7", or the other way round). Returns false if the tree has no such map.
 func AddCollidingKey(r *wk.Rand, v any) (any, bool) {
